@@ -167,6 +167,14 @@ pub fn eval(out: &mut Out, op: &str, args: &[&str]) -> Option<String> {
             let m = msg(0x7c, &b);
             showm(guarded(|| Decode!(&m, i128)))
         }
+        "leb.msgNatAsI128" => {
+            let m = msg(0x7d, &b);
+            showm(guarded(|| Decode!(&m, i128)))
+        }
+        "leb.msgVecNatAsI128" => {
+            let m = msg_vec(0x7d, &b);
+            showv(guarded(|| Decode!(&m, Vec<i128>)))
+        }
         "leb.msgNatU" => {
             let m = msg(0x7d, &b);
             showm(guarded(|| {
@@ -206,9 +214,9 @@ pub fn eval(out: &mut Out, op: &str, args: &[&str]) -> Option<String> {
 }
 
 const STANDALONE: [&str; 4] = ["leb.natDecode", "leb.intDecode", "leb.dec128u", "leb.dec128i"];
-const INMSG: [&str; 7] =
-    ["leb.msgNat", "leb.msgInt", "leb.msgNatAsInt", "leb.msgU128", "leb.msgI128", "leb.msgNatU", "leb.msgIntU"];
-const VECS: [&str; 4] = ["leb.msgVecNat", "leb.msgVecInt", "leb.msgVecU128", "leb.msgVecI128"];
+const INMSG: [&str; 8] =
+    ["leb.msgNat", "leb.msgInt", "leb.msgNatAsInt", "leb.msgU128", "leb.msgI128", "leb.msgNatU", "leb.msgIntU", "leb.msgNatAsI128"];
+const VECS: [&str; 5] = ["leb.msgVecNat", "leb.msgVecInt", "leb.msgVecU128", "leb.msgVecI128", "leb.msgVecNatAsI128"];
 
 fn decode_ops(ctx: &mut Ctx, bs: &[u8], all: bool) {
     let h = hex_or_dash(bs);
